@@ -129,12 +129,17 @@ func parseClusterNodesSlot(segements []string) ([]int, error) {
 			if start < 0 || end >= slotNum || start > end {
 				return nil, errInvalidClusterNodes
 			}
+			// a node can't serve more slots than there are, the same range
+			// repeated again and again would be expanded without bound.
+			if len(slots)+end-start+1 > slotNum {
+				return nil, errInvalidClusterNodes
+			}
 			for i := start; i <= end; i++ {
 				slots = append(slots, i)
 			}
 		} else if len(parts) == 1 {
 			slot, err := strconv.Atoi(parts[0])
-			if err != nil {
+			if err != nil || len(slots) >= slotNum {
 				return nil, errInvalidClusterNodes
 			}
 			slots = append(slots, slot)
